@@ -576,12 +576,14 @@ Definition jp_char_ok (c : N) : bool :=
   negb ((c <? 32) || (c =? 36) || (c =? 37) || (c =? 92) || (c =? 34) || (c =? 35) || (c =? 127))%N.
 Definition jp_arg_ok (a : str) : bool :=
   match a with [] => false | _ => true end && forallb jp_char_ok a.
+Definition glob_meta (c : N) : bool := ((c =? 42) || (c =? 63) || (c =? 91) || (c =? 93))%N.   (* * ? [ ] *)
 Definition dom_step (o : op) (t : tree) : bool :=
   match o with
   | Write p s | Append p s => path_ok p && forallb scalar s
   | WriteB p b => path_ok p && forallb (fun x => (x <? 256)%N) b
-  | Read p | ReadB p | Touch p | Mkdir p | Rmdir p | Exists p | IsFile p | IsDir p | Size p | Ls p =>
+  | Read p | ReadB p | Touch p | Mkdir p | Rmdir p | Exists p | IsFile p | IsDir p | Size p =>
       path_ok p
+  | Ls p => path_ok p && forallb (forallb (fun c => negb (glob_meta c))) (pk p)   (* a literal pattern *)
   | Cp a b | Mv a b => path_ok a && path_ok b && negb (p_is_dir a t)    (* no directory sources *)
   | Rm f ps => forallb path_ok ps && match f with Some fl => is_unix_flags fl | None => true end
   | Basename s | Dirname s => true
